@@ -80,6 +80,8 @@ Fixpoint scrape_collect (cfg : wcfg) (k : nat) (ws : list wstate) (who : N * N) 
       end
   end.
 
+(* the socket worker's announce gate: a torrent the access list forbids is answered with an error
+   (kind 4) before any bookkeeping; [wsys_gate] wraps [wsys_step] with it *)
 (* [cut]: the scrape list is cut to max_scrape_torrents before it is split among the swarm
    workers; [answer_empty]: a scrape naming no torrent is answered at once (both regenerated
    from connection.rs).  Without [answer_empty] such a scrape parks a pending entry that no
@@ -128,3 +130,15 @@ Definition wsys_step (cfg : wcfg) (cut answer_empty : bool) (k : nat) (y : wsys)
   end.
 
 Definition wsys_init (k : nat) : wsys := mkWsys (repeat winit k) [].
+
+Definition wsys_gate (mode : acl_mode) (acl : list N) (cfg : wcfg) (cut answer_empty : bool) (k : nat) (y : wsys) (who : N * N) (a : caction)
+  : outcome (wsys * list dmsg) :=
+  match a with
+  | CAnnounce rq =>
+      match find_conn who (y_conns y) with
+      | Some _ => if allows mode acl (q_hash rq) then wsys_step cfg cut answer_empty k y who a
+                  else Ok (y, [DErr (fst who) (snd who) 4])
+      | None => Ok (y, [])
+      end
+  | _ => wsys_step cfg cut answer_empty k y who a
+  end.
